@@ -41,7 +41,7 @@ type IterOut struct {
 	Vs      [][]float64
 }
 
-var iterDeadline = 5 * time.Second
+var iterDeadline = 4 * time.Second
 var hung = 0 // number of calls that never returned (their goroutines keep spinning)
 
 func RunIter(in *IterIn) *IterOut {
